@@ -85,6 +85,9 @@ func (f *vc17Fake) Close() error     { return nil }
 func (f *vc17Fake) Exchange(_ context.Context, req *dns.Msg) (resp *dns.Msg, nw Network, err error) {
 	q := req.Question[0]
 	f.env.record(vc17Call{who: f.name, main: f.main, idx: f.idx, probe: vc17IsProbeName(q.Name), qname: q.Name, qtype: q.Qtype})
+	if f.main && vc17IsProbeName(q.Name) {
+		defer f.env.noteProbeEnd(f.idx)
+	}
 
 	reply := func(rc int) *dns.Msg {
 		r := (&dns.Msg{}).SetRcode(req, rc)
